@@ -258,7 +258,24 @@ pub fn run_behaviour(pr: Proto, beh: &Beh, inst: &BInst, km: &KeyMat, book: &mut
                                 }
                                 payload.push(json!([ak, id]));
                             }
-                            json!({"res": "ok", "key": "-", "payload": payload, "nonce": nonce.0, "nseen": nonce.1})
+                            // batteries-included end to end: the default PasetoParser on the built token
+                            let mut pread = "na".to_string();
+                            if layer == Layer::Prelude {
+                                for attempt in 0..2 {
+                                    let (o, _) = present(pr, Layer::Prelude, &tok, km, footer, assertion);
+                                    pread = match &o {
+                                        Out::Ok(_) => "ok".to_string(),
+                                        Out::ErrPost(d) if d.starts_with("claim:") => "claim".to_string(),
+                                        o => format!("{}:{}", o.class(), o.detail()),
+                                    };
+                                    if pread == "ok" || attempt == 1 {
+                                        break;
+                                    }
+                                    // nbf defaults to the creation instant: give a coarse clock a moment
+                                    std::thread::sleep(std::time::Duration::from_millis(3));
+                                }
+                            }
+                            json!({"res": "ok", "key": "-", "payload": payload, "nonce": nonce.0, "nseen": nonce.1, "pread": pread})
                         }
                         _ => json!({"res": "unreadable", "key": "-", "payload": [], "nonce": 0, "nseen": 0, "detail": "payload is not a JSON object"}),
                     },
